@@ -640,7 +640,7 @@ func (fc *FnCtx) strSort() string {
 		if fc.idxBV() {
 			fc.addAxiom("gs.len", "(assert (forall ((s Str)) (! (bvsge (gs.len s) (_ bv0 64)) :pattern ((gs.len s)))))")
 		} else {
-			fc.addAxiom("gs.len", "(assert (forall ((s Str)) (! (>= (gs.len s) 0) :pattern ((gs.len s)))))")
+			fc.addAxiom("gs.len", "(assert (forall ((s Str)) (! (and (>= (gs.len s) 0) (<= (gs.len s) 9223372036854775807)) :pattern ((gs.len s)))))")
 		}
 	}
 	return "Str"
